@@ -1,8 +1,10 @@
 /* libc leaf functions used by uriparser, as plain C so that they are executed symbolically like everything else */
 #include <stddef.h>
 #include <wchar.h>
+#ifndef MODE_ARITH   /* the C17 arithmetic harness stubs strlen/wcslen with an arbitrary size_t */
 size_t strlen(const char *s){ size_t n = 0; while (s[n]) n++; return n; }
 size_t wcslen(const wchar_t *s){ size_t n = 0; while (s[n]) n++; return n; }
+#endif
 int strncmp(const char *a, const char *b, size_t n){
   for (size_t i = 0; i < n; i++){ unsigned char x = (unsigned char)a[i], y = (unsigned char)b[i];
     if (x != y) return x < y ? -1 : 1; if (!x) return 0; }
